@@ -95,6 +95,10 @@ Cond_C07_RefShape == (IsBuild /\ Ev.what = "file" /\ "refShape" \in DOMAIN Ev /\
     Ev.refShape = PreArity(RefLayout(Ev.n, Ev.w))   \* the transcription itself, against boxo
 Cond_C07_RefEq == (IsBuildAny /\ "refEq" \in DOMAIN Ev) => Ev.refEq
 
+\* beyond the listed properties: the reference importer's trickle DAG has the transcribed trickle shape
+Cond_X_TrickleShape == (IsBuildAny /\ "trickleShape" \in DOMAIN Ev /\ Ev.n >= 0) =>
+    Ev.trickleShape = PreArity(RefTrickle(Ev.n, Ev.w))
+
 \* ---- C10 ----
 Cond_C10_Same == (IsBuildAny /\ Ev.ret.e = "nil") =>
     \A k \in 1 .. Len(first) : first[k][1] = Ev.input => (first[k][2] = Ev.root /\ first[k][3] = Ev.ret.size)
@@ -115,6 +119,7 @@ Inv_C07_Shape == Chk("Inv_C07_Shape", Cond_C07_Shape)
 Inv_C07_RefShape == Chk("Inv_C07_RefShape", Cond_C07_RefShape)
 Inv_C07_RefEq == Chk("Inv_C07_RefEq", Cond_C07_RefEq)
 Inv_C10_Same == Chk("Inv_C10_Same", Cond_C10_Same)
+Inv_X_TrickleShape == Chk("Inv_X_TrickleShape", Cond_X_TrickleShape)
 Inv_C16_Big == Chk("Inv_C16_Big", Cond_C16_Big)
 Inv_C11_Big == Chk("Inv_C11_Big", Cond_C11_Big)
 Alias == [l |-> l]
